@@ -100,6 +100,10 @@ class C13(Prop):
             "extra": st.lists(st.tuples(st.integers(0, 60), st.sampled_from(["EDIF.identifier", "K"]),
                                         st.integers(0, 7)).map(list), max_size=12),
             "queries": st.lists(query, min_size=6, max_size=6),
+            "edits": st.one_of(st.just([]), st.lists(st.fixed_dictionaries({
+                "k": st.sampled_from(["del_name", "name_none", "rename", "del_id", "pop_id", "pop_name",
+                                      "set_id"]),
+                "i": st.integers(0, 60), "v": st.integers(0, 20)}), max_size=4)),
         })
 
     # -------------------------------------------------------------------------------------------
@@ -119,8 +123,73 @@ class C13(Prop):
                 E[key] = val
             except ValueError:
                 pass
+        # naming edits through the public API before the queries (un-naming, renaming, dropping or
+        # setting identifiers): exact patterns take the accelerated lookup, the others scan
+        self.freed = {".NAME": set(), "EDIF.identifier": set()}
+        for e in case.get("edits") or []:
+            E = els[e["i"] % len(els)]
+            for kk in self.freed:
+                if isinstance(E.data.get(kk), str) and E.data[kk]:
+                    self.freed[kk].add(E.data[kk])   # a value an edit may free: still asked for below
+            try:
+                k = e["k"]
+                if k == "del_name":
+                    del E.name
+                elif k == "name_none":
+                    E.name = None
+                elif k == "rename":
+                    E.name = NAMES[e["v"] % len(NAMES)]
+                elif k == "del_id":
+                    del E["EDIF.identifier"]
+                elif k == "pop_id":
+                    E.pop("EDIF.identifier")
+                elif k == "pop_name":
+                    E.pop(".NAME")
+                else:
+                    E["EDIF.identifier"] = IDENTS[e["v"] % len(IDENTS)]
+                res.label("edited-before-queries")
+            except Exception:  # noqa (refusals are C10/C14's business)
+                pass
         self.nl = nl
         self.policy = case.get("policy", "DEFAULT")
+        # every value an edit touched is asked for by exact pattern at the edited element's container
+        for e in case.get("edits") or []:
+            E = els[e["i"] % len(els)]
+            par, fn = None, None
+            for attr, f in (("netlist", sdn.get_libraries), ("library", sdn.get_definitions),
+                            ("definition", sdn.get_ports if isinstance(E, sdn.Port) else sdn.get_cables),
+                            ("parent", sdn.get_instances)):
+                v = getattr(E, attr, None)
+                if v is not None and not callable(v) and not isinstance(E, sdn.Netlist):
+                    par, fn = v, f
+                    break
+            if par is None:
+                continue
+            for key in (".NAME", "EDIF.identifier"):
+                for v in sorted(self.freed[key] | ({E.data[key]} if isinstance(E.data.get(key), str)
+                                                   and E.data[key] else set())):
+                    if "*" in v or "?" in v:
+                        continue
+                    try:
+                        U = list(fn(par, key=key))   # the unfiltered answer under the same key
+                        R = list(fn(par, v, key=key))
+                    except Exception as ex:  # noqa
+                        res.violate("C13:%s:raises:%s" % (fn.__name__, type(ex).__name__), repr(ex))
+                        return res
+                    lo = {id(x) for x in U if x.data.get(key) == v}
+                    hi = set(lo)
+                    if key == "EDIF.identifier":
+                        hi |= {id(x) for x in U if isinstance(x.data.get(key), str)
+                               and x.data[key].lower() == v.lower() and x.data.get(".NS") == "EDIF"}
+                    Rs = {id(x) for x in R}
+                    if len(Rs) != len(R):
+                        res.violate("C13:%s:exact:case:duplicates" % fn.__name__, repr(v))
+                        return res
+                    if not (Rs <= hi and (Rs == lo or len(hi) > len(lo) or len(lo) > 1)):
+                        res.violate("C13:%s:exact:case:%s" % (fn.__name__, "extra" if Rs - hi else "missing"),
+                                    "after edit %s: container %s, pattern %r key %r: expected %d, got %d" % (
+                                        e["k"], type(par).__name__, v, key, len(lo), len(Rs)))
+                        return res
         for q in case["queries"]:
             self.one_query(res, nl, q)
             if any(sig != "C13:hierarchical-getter-ignores-patterns-for-element-roots"
@@ -297,7 +366,8 @@ class C13(Prop):
             def value(x):
                 v = x.get(key, "")
                 return v if isinstance(v, str) else ("" if v is None else str(v))
-        values = sorted({value(x) for x in U if value(x)})
+        values = sorted({value(x) for x in U if value(x)} | (set() if hier else
+                                                             getattr(self, "freed", {}).get(key, set())))
         # ---- patterns from the values present
         is_case, is_re = q["is_case"], q["is_re"]
         pats = []
